@@ -49,8 +49,23 @@ def corrupt(rng, line):
     """One single-point fault on a record. Returns (kind, new_text)."""
     kind = rng.choice(["replace", "insert", "delete", "dropfield", "dupfield", "tagtype",
                        "truncate", "blank", "empty", "swapfields", "emptyfield", "digits", "digits", "tagname",
-                       "tagvalue", "newline"])
+                       "tagvalue", "newline", "cigarop"])
     f = line.split("\t")
+    if kind == "cigarop":
+        # the code of one operation of an alignment (not necessarily the first) replaced by another letter:
+        # the codes = X S H N exist in GFA1 only
+        import re as _re
+        cands = [j for j, x in enumerate(f) if j > 0 and _re.match(r"^([0-9]+[MIDPX=SHN])+$", x)]
+        if cands:
+            j = rng.choice(cands)
+            ops_ = _re.findall(r"[0-9]+[MIDPX=SHN]", f[j])
+            if len(ops_) < 2 or rng.random() < 0.3:
+                ops_.append("%d%s" % (rng.randint(1, 3), rng.choice("MD")))
+            i_ = rng.randrange(1, len(ops_)) if rng.random() < 0.7 else 0
+            ops_[i_] = ops_[i_][:-1] + rng.choice("=XSHNQ")
+            f[j] = "".join(ops_)
+            return kind, "\t".join(f)
+        kind = "replace"
     if kind == "digits":
         # one run of digits replaced by non-ASCII digits or by more digits than int() converts
         import re as _re
